@@ -3,7 +3,7 @@
    with printer.NewGoAsm on every run; these theorems are about the structured lines. *)
 From Avo Require Import Base.Prelude Base.Str.
 From stdpp Require Import gmap.
-From Avo Require Import Base.MaskSet Model.IR Model.RegFile Model.Data Model.Attr Model.AsmSyntax Model.PrintAsm Model.NodeSem Proofs.PrintProofs Proofs.PrintSem.
+From Avo Require Import Base.MaskSet Model.IR Model.RegFile Model.Data Model.Attr Model.AsmSyntax Model.PrintAsm Model.NodeSem Proofs.PrintProofs Proofs.PrintSem Proofs.PrintBlock.
 Open Scope N_scope.
 Open Scope list_scope.
 
@@ -58,3 +58,10 @@ Theorem printed_body_computes_the_same : forall (S : Type) (exec : instr -> S ->
   same_behaviour S exec ns (lines_code (body_lines ns [] true)).
 Proof. exact printed_body_same_behaviour. Qed.
 Print Assumptions printed_body_computes_the_same.
+
+(* the text of an instruction line is its own opcode, suffixes and operands whatever block it is printed
+   in: the column the block is aligned at only changes the number of blanks *)
+Theorem instruction_text_independent_of_its_block : forall names rf w w' i,
+  drop_spaces (render_line names rf (LInstr w i)) = drop_spaces (render_line names rf (LInstr w' i)).
+Proof. exact instruction_line_independent_of_block. Qed.
+Print Assumptions instruction_text_independent_of_its_block.
